@@ -69,6 +69,27 @@ CLAIMED = {
         "hooks overwritten by config_setting_set_hook are not passed to the destructor (as documented), stated in C16_set_hook.",
    technique="Coq proof (multiset conservation invariant by induction over histories) + correspondence",
    ref="5 (C16)"),
+ "C01": dict(
+   text="PARTIAL. Proved (Properties_C01.v, closed under the global context), for all values: the text of config_write "
+        "is the concatenation of pieces determined by tree and options, whose option-free content is the tree's token "
+        "content; every kind of piece in front of any byte that can follow it is consumed by one step of the compiled "
+        "scanner (flex automaton of the generated tables) and yields exactly its token and value - %d, %lldL, 0x%X, "
+        "0x%llXL over the whole 32/64-bit range, true/false, API-valid names (unless they spell a boolean keyword: F2), "
+        "punctuation, blanks, newlines - by class certificates (ClassCheck/ClassCert: every word of a regular class "
+        "followed by a permitted byte is one longest match by the expected rule; vm_compute certificate + soundness "
+        "proof, transported to the automaton by the C18 equivalence); a string literal as the writer escapes it is read "
+        "back byte for byte for every string over bytes 1..255 (induction through the STRING start condition); a float "
+        "rendering of format_double's syntax is read as strtod of that text; runs of such steps are what lex_buf "
+        "computes. NOT proved: the assembly over a whole tree through the parser (read(write c) equivalent to c, second "
+        "write identical). That end-to-end statement is decided on every run on the real library: rtrip = write, "
+        "read_string into a second configuration, dump, write again, over API-built and parsed trees x option vectors, "
+        "compared with the model line by line and, model-free, with the property's equivalence, an independent printf "
+        "rendering and the reference parser.",
+   note="Known findings F1 (float %f rendering cut at 60 characters), F1b (%g rounds above DBL_MAX), F1c (denormals "
+        "unstable under %g), F2 (keyword-named members), F3 (nesting beyond the parser stack) are reported as "
+        "KNOWN-FINDING; a case is attributed to them only when every message of that case falls into a recorded class.",
+   technique="Coq proof (class certificates by vm_compute with a soundness proof; induction over strings; digit-string arithmetic) + round-trip correspondence (partial)",
+   ref="5 (C01)"),
  "C17": dict(
    text="Coq theorems (Properties_C17.v, closed under the global context) over Cpp.v, the model of lib/libconfigcpp.c++ "
         "written as its guards (assertType with the auto-convert escape, range tests, NULL tests) around the calls of the "
